@@ -27,19 +27,22 @@ Variable ev : Tokenizer.token -> C -> res C.
 Variable Q : C -> Prop.
 Hypothesis Hev : forall tok c c', Q c -> ev tok c = Ok c' -> Q c'.
 
+(* forward step: turn [He : f .. c = Ok (.., c2)] into [Q c2] with a preservation lemma [L] *)
+Ltac fwd1 L := match goal with He : _ = Ok _ |- _ => eapply L in He; [|eassumption] end.
+
 Lemma parse_comment_Q s c s' c' :
   Q c -> parse_comment text C ev s c = Ok (s', c') -> Q c'.
-Proof. unfold parse_comment. intros HQ H. minv H. eauto. Qed.
+Proof. unfold parse_comment. intros HQ H. minv H. repeat fwd1 Hev. assumption. Qed.
 
 Lemma parse_pi_Q s c s' c' :
   Q c -> parse_pi text C ev s c = Ok (s', c') -> Q c'.
-Proof. unfold parse_pi. intros HQ H. minv H. eauto. Qed.
+Proof. unfold parse_pi. intros HQ H. minv H. repeat fwd1 Hev. assumption. Qed.
 
 Lemma parse_misc_loop_Q fuel : forall s c s' c',
   Q c -> parse_misc_loop text C ev fuel s c = Ok (s', c') -> Q c'.
 Proof.
   induction fuel as [|fu IH]; intros s c s' c' HQ H; cbn [parse_misc_loop] in H; [discriminate|].
-  minv H; eauto using parse_comment_Q, parse_pi_Q.
+  minv H; repeat first [fwd1 parse_comment_Q | fwd1 parse_pi_Q | fwd1 IH]; assumption.
 Qed.
 
 Lemma parse_misc_Q s c s' c' :
@@ -50,7 +53,7 @@ Lemma parse_entity_decl_Q s c s' c' :
   Q c -> parse_entity_decl text C ev s c = Ok (s', c') -> Q c'.
 Proof.
   unfold parse_entity_decl. intros HQ H. minv H.
-  minv Hb5; eauto.
+  minv Hb5; repeat fwd1 Hev; assumption.
 Qed.
 
 Lemma parse_doctype_loop_Q fuel : forall start s c s' c',
@@ -58,13 +61,15 @@ Lemma parse_doctype_loop_Q fuel : forall start s c s' c',
 Proof.
   induction fuel as [|fu IH]; intros start s c s' c' HQ H; cbn [parse_doctype_loop] in H;
     [discriminate|].
-  minv H; eauto using parse_comment_Q, parse_pi_Q, parse_entity_decl_Q.
+  minv H;
+    repeat first [fwd1 parse_comment_Q | fwd1 parse_pi_Q | fwd1 parse_entity_decl_Q | fwd1 IH];
+    assumption.
 Qed.
 
 Lemma parse_doctype_Q s c s' c' :
   Q c -> parse_doctype text C ev s c = Ok (s', c') -> Q c'.
 Proof.
-  unfold parse_doctype. intros HQ H. minv H; eauto using parse_doctype_loop_Q.
+  unfold parse_doctype. intros HQ H. minv H; repeat fwd1 parse_doctype_loop_Q; assumption.
 Qed.
 
 Lemma parse_element_loop_Q fuel : forall ts s c o s' c',
@@ -72,26 +77,27 @@ Lemma parse_element_loop_Q fuel : forall ts s c o s' c',
 Proof.
   induction fuel as [|fu IH]; intros ts s c o s' c' HQ H; cbn [parse_element_loop] in H;
     [discriminate|].
-  minv H; eauto.
+  minv H; repeat first [fwd1 Hev | fwd1 IH]; assumption.
 Qed.
 
 Lemma parse_element_Q s c o s' c' :
   Q c -> parse_element text C ev s c = Ok (o, s', c') -> Q c'.
 Proof.
-  unfold parse_element. intros HQ H. minv H. eauto using parse_element_loop_Q.
+  unfold parse_element. intros HQ H. minv H.
+  repeat first [fwd1 Hev | fwd1 parse_element_loop_Q]; assumption.
 Qed.
 
 Lemma parse_cdata_Q s c s' c' :
   Q c -> parse_cdata text C ev s c = Ok (s', c') -> Q c'.
-Proof. unfold parse_cdata. intros HQ H. minv H. eauto. Qed.
+Proof. unfold parse_cdata. intros HQ H. minv H. repeat fwd1 Hev. assumption. Qed.
 
 Lemma parse_close_element_Q s c s' c' :
   Q c -> parse_close_element text C ev s c = Ok (s', c') -> Q c'.
-Proof. unfold parse_close_element. intros HQ H. minv H. eauto. Qed.
+Proof. unfold parse_close_element. intros HQ H. minv H. repeat fwd1 Hev. assumption. Qed.
 
 Lemma parse_text_Q s c s' c' :
   Q c -> parse_text text C ev s c = Ok (s', c') -> Q c'.
-Proof. unfold parse_text. intros HQ H. minv H. eauto. Qed.
+Proof. unfold parse_text. intros HQ H. minv H. repeat fwd1 Hev. assumption. Qed.
 
 Lemma parse_content_loop_Q fuel : forall depth s c s' c',
   Q c -> parse_content_loop text C ev fuel depth s c = Ok (s', c') -> Q c'.
@@ -99,8 +105,10 @@ Proof.
   induction fuel as [|fu IH]; intros depth s c s' c' HQ H; cbn [parse_content_loop] in H;
     [discriminate|].
   minv H;
-    eauto using parse_comment_Q, parse_pi_Q, parse_cdata_Q, parse_close_element_Q,
-                parse_element_Q, parse_text_Q.
+    repeat first [fwd1 parse_comment_Q | fwd1 parse_pi_Q | fwd1 parse_cdata_Q
+                 | fwd1 parse_close_element_Q | fwd1 parse_element_Q | fwd1 parse_text_Q
+                 | fwd1 IH];
+    assumption.
 Qed.
 
 Lemma parse_content_Q s c s' c' :
@@ -112,13 +120,13 @@ Lemma parse_document_Q dtd c c' :
 Proof.
   unfold parse_document. intros HQ H.
   mbind H s1 Hs1. mbind H s2 Hs2. mbind H sc3 H3. destruct sc3 as [s3 c3].
-  assert (Q3 : Q c3) by eauto using parse_misc_Q.
+  apply parse_misc_Q in H3; [|assumption].
   mbind H sc4 H4. destruct sc4 as [s4 c4].
   assert (Q4 : Q c4).
-  { minv H4; eauto using parse_misc_Q, parse_doctype_Q. }
+  { minv H4; repeat first [fwd1 parse_doctype_Q | fwd1 parse_misc_Q]; assumption. }
   mbind H sc5 H5. destruct sc5 as [s5 c5].
   assert (Q5 : Q c5).
-  { minv H5; eauto using parse_element_Q, parse_content_Q. }
-  minv H. eauto using parse_misc_Q.
+  { minv H5; repeat first [fwd1 parse_element_Q | fwd1 parse_content_Q]; assumption. }
+  minv H. repeat fwd1 parse_misc_Q. assumption.
 Qed.
 End Tokenizer.
